@@ -11,6 +11,8 @@
 //	c08 nums <n>            integer-like literals: import, every export, re-import
 //	                        N <hex> <n1,n2,..> : <code points>  /  C <hex> imp=.. ty=.. bits=.. ...
 //	c08 numfile <file>      same for literals (hex, one per line) of a file
+//	c08 uints <n>           ImportUint (uint8/16/32/64, optionalBits), ImportBytes (+CastType hex/bin), ExportUint64:
+//	                        V uint <w> <value> <optBits> | V bytes <bits> <hex BE> <cast>  /  VC ... observables
 //	c08 floats <n>          direct round-trip search on float16/32, fixed point, FXP, linear quantiser:
 //	                        F <type> <literal> <verdict> ...
 //
@@ -913,10 +915,152 @@ func cmdFloats(n int) {
 	patternCases(rng, n)
 }
 
+// ---------------------------------------------------------------- ImportUint / ImportBytes / ExportUint64
+
+// observables of a value that did not come from ImportString
+func valueLine(n *bmnumbers.BMNumber) string {
+	return common.Guard(func() string {
+		var sb strings.Builder
+		fmt.Fprintf(&sb, "ty=%s bits=%s bytes=%s", n.GetTypeName(), bitsOf(n), leBytes(n))
+		if u, err := n.ExportUint64(); err != nil {
+			sb.WriteString(" u64=!err")
+		} else {
+			fmt.Fprintf(&sb, " u64=%d", u)
+		}
+		es, eerr := n.ExportString(nil)
+		fmt.Fprintf(&sb, " es=%s", strOrErr(es, eerr))
+		fmt.Fprintf(&sb, " eb=%s", strOrErr(n.ExportBinary(false)))
+		fmt.Fprintf(&sb, " ebs=%s", strOrErr(n.ExportBinary(true)))
+		fmt.Fprintf(&sb, " vb=%s", strOrErr(n.ExportVerilogBinary()))
+		if eerr != nil {
+			sb.WriteString(" rt=-")
+		} else if m, st := importG(es); m == nil {
+			fmt.Fprintf(&sb, " rt=%s", st)
+		} else {
+			fmt.Fprintf(&sb, " rt=ok rty=%s rbits=%s rbytes=%s", m.GetTypeName(), bitsOf(m), leBytes(m))
+		}
+		return sb.String()
+	})
+}
+
+// V uint <w> <value> <optionalBits>      -> ImportUint(uintW(value), optionalBits)
+// V bytes <bits> <hex big endian> <cast> -> ImportBytes(bytes, bits) then CastType to unsigned|hex|bin
+func valueCase(f []string) {
+	if len(f) < 5 {
+		return
+	}
+	out.Line("%s", strings.Join(f[:5], " "))
+	res := common.Guard(func() string {
+		var n *bmnumbers.BMNumber
+		var err error
+		switch f[1] {
+		case "uint":
+			v, e1 := strconv.ParseUint(f[3], 10, 64)
+			ob, e2 := strconv.Atoi(f[4])
+			if e1 != nil || e2 != nil {
+				return "bad-case"
+			}
+			switch f[2] {
+			case "8":
+				n, err = bmnumbers.ImportUint(uint8(v), ob)
+			case "16":
+				n, err = bmnumbers.ImportUint(uint16(v), ob)
+			case "32":
+				n, err = bmnumbers.ImportUint(uint32(v), ob)
+			case "64":
+				n, err = bmnumbers.ImportUint(uint64(v), ob)
+			default:
+				return "bad-case"
+			}
+		case "bytes":
+			bits, e1 := strconv.Atoi(f[2])
+			be := []byte(unhx(f[3]))
+			if e1 != nil {
+				return "bad-case"
+			}
+			n, err = bmnumbers.ImportBytes(be, bits)
+			if err == nil && n != nil && f[4] != "unsigned" {
+				err = bmnumbers.CastType(n, bmnumbers.GetType(f[4]))
+			}
+		default:
+			return "bad-case"
+		}
+		if err != nil || n == nil {
+			return "imp=err"
+		}
+		return valueLine(n)
+	})
+	out.Line("VC %s %s", strings.Join(f[1:5], " "), res)
+}
+
+func u64Values(rng *common.Rng, n int) []uint64 {
+	vs := []uint64{0, 1, 0x0102030405060708, 0x0807060504030201, 0xF1E2D3C4B5A69788, 0x8000000000000001, 0x00FF00FF00FF00FF,
+		0xFF00FF00FF00FF00, 0x10000000000, 0x100000000, 0x0000010000000000, 0x0000FF0000000000, 0x000000FF00000000, ^uint64(0),
+		0x123456789ABCDEF0, 0xDEADBEEFCAFEF00D}
+	for k := 0; k < 64; k++ {
+		p := uint64(1) << uint(k)
+		vs = append(vs, p)
+		if k%8 == 0 || k%8 == 7 {
+			vs = append(vs, p-1, p+1)
+		}
+	}
+	for b := 0; b < 8; b++ { // one non-zero byte, and every byte but one
+		vs = append(vs, uint64(0xA5)<<uint(8*b), ^(uint64(0xFF) << uint(8*b)))
+	}
+	for i := 0; i < n; i++ {
+		v := rng.Next()
+		if rng.Chance(1, 4) {
+			v >>= uint(rng.Intn(64))
+		}
+		vs = append(vs, v)
+	}
+	return vs
+}
+
+func cmdUints(n int) {
+	spread()
+	rng := common.NewRng(common.Seed()*2750159 + 8008)
+	for _, v := range u64Values(rng, n) {
+		for _, w := range []int{8, 16, 32, 64} {
+			m := v
+			if w < 64 {
+				m &= (uint64(1) << uint(w)) - 1
+			}
+			ob := 0
+			if rng.Chance(1, 10) {
+				ob = 1 + rng.Intn(64)
+			}
+			valueCase([]string{"V", "uint", strconv.Itoa(w), strconv.FormatUint(m, 10), strconv.Itoa(ob)})
+		}
+		// the same value through ImportBytes, as unsigned (64 bits), hex and bin
+		be := make([]byte, 8)
+		for i := 0; i < 8; i++ {
+			be[7-i] = byte(v >> (8 * uint(i)))
+		}
+		valueCase([]string{"V", "bytes", "64", hex.EncodeToString(be), "unsigned"})
+		valueCase([]string{"V", "bytes", "64", hex.EncodeToString(be), "hex"})
+		valueCase([]string{"V", "bytes", "64", hex.EncodeToString(be), "bin"})
+		// narrower / wider byte strings: k bytes, bits = 8k (hex), masked to bits (bin, unsigned <= 64)
+		k := 1 + rng.Intn(12)
+		bs := make([]byte, k)
+		for i := range bs {
+			bs[i] = byte(rng.Next())
+		}
+		valueCase([]string{"V", "bytes", strconv.Itoa(8 * k), hex.EncodeToString(bs), "hex"})
+		bits := 8*(k-1) + 1 + rng.Intn(8)
+		bs2 := append([]byte{}, bs...)
+		bs2[0] &= byte(0xFF >> uint(8*k-bits))
+		valueCase([]string{"V", "bytes", strconv.Itoa(bits), hex.EncodeToString(bs2), "bin"})
+		if k <= 8 {
+			valueCase([]string{"V", "bytes", strconv.Itoa(bits), hex.EncodeToString(bs2), "unsigned"})
+		}
+	}
+}
+
 func main() {
 	defer out.Flush()
 	if len(os.Args) < 2 {
-		fmt.Fprintln(os.Stderr, "usage: c08 matchers|regex n|check file|nums n|numfile file|floats n|floatfile file")
+		fmt.Fprintln(os.Stderr, "usage: c08 matchers|regex n|check file|nums n|numfile file|floats n|floatfile file|uints n|uintfile file")
 		os.Exit(2)
 	}
 	arg := func(i int, def int) int {
@@ -941,6 +1085,13 @@ func main() {
 		cmdNumFile(os.Args[2])
 	case "floats":
 		cmdFloats(arg(2, 3000))
+	case "uints":
+		cmdUints(arg(2, 300))
+	case "uintfile": // lines: V uint <w> <value> <optionalBits> | V bytes <bits> <hex> <cast>
+		spread()
+		for _, l := range readLines(os.Args[2]) {
+			valueCase(strings.Fields(l))
+		}
 	case "floatfile": // lines: <family> <hex literal>
 		spread()
 		setLQRanges()
